@@ -846,20 +846,49 @@ Lemma alignment_refuted_by_one :
   nth_error (cleandoc_lines w_doc) 1 = clean_line_of_value_line w_doc 2.
 Proof. vm_compute. repeat split. Qed.
 
-(* the reST reader stores docutils' 1-based line as a 0-based one: every reST parse error is reported one line
-   below the block docutils names (cleaned line L-1 is on physical line ds + L - 1) *)
-Lemma rst_parse_error_one_too_large : forall ds ln m d L, ds <> 0 -> 1 <= L ->
-  report_line sec_docstring ds ln (perr_offset (rst_reader_perr d (Some L))) m = Num (ds + (L - 1) + 1).
+(* the reST reader (after 105813f) converts docutils' 1-based line: cleaned line L-1 is on physical line ds + L - 1 *)
+Lemma rst_parse_error_line : forall ds ln m d L, ds <> 0 -> 1 <= L ->
+  report_line sec_docstring ds ln (perr_offset (rst_reader_perr d (Some L))) m = Num (ds + (L - 1)).
 Proof.
-  intros ds ln m d L Hds HL. unfold rst_reader_perr. rewrite perr_offset_zero_based by lia.
+  intros ds ln m d L Hds HL. unfold rst_reader_perr. cbn [option_map]. rewrite perr_offset_zero_based by lia.
+  apply (report_line_docstring_sections sec_docstring ds ln (L - 1) m eq_refl Hds).
+Qed.
+
+Lemma rst_parse_error_unknown_line : forall ds ln m d, ds <> 0 ->
+  report_line sec_docstring ds ln (perr_offset (rst_reader_perr d None)) m = Num ds.
+Proof.
+  intros ds ln m d Hds. unfold rst_reader_perr. cbn [option_map]. rewrite perr_offset_unknown.
+  rewrite (report_line_docstring_sections sec_docstring ds ln 0 m eq_refl Hds). f_equal. lia.
+Qed.
+
+(* the reader before the repair stored the 1-based line: every reST parse error was one line too low *)
+Lemma rst_parse_error_old_one_too_large : forall ds ln m d L, ds <> 0 -> 1 <= L ->
+  report_line sec_docstring ds ln (perr_offset (rst_reader_perr_old d (Some L))) m = Num (ds + (L - 1) + 1).
+Proof.
+  intros ds ln m d L Hds HL. unfold rst_reader_perr_old. rewrite perr_offset_zero_based by lia.
   rewrite (report_line_docstring_sections sec_docstring ds ln L m eq_refl Hds). f_equal. lia.
 Qed.
 
-Lemma rst_parse_error_line_refuted :
+Lemma rst_parse_error_line_old_refuted :
   ~ (forall ds ln m d L, ds <> 0 -> 1 <= L ->
-       report_line sec_docstring ds ln (perr_offset (rst_reader_perr d (Some L))) m = Num (ds + (L - 1))).
+       report_line sec_docstring ds ln (perr_offset (rst_reader_perr_old d (Some L))) m = Num (ds + (L - 1))).
 Proof.
   intros H. specialize (H 2 0 false [] 1 ltac:(lia) ltac:(lia)). vm_compute in H. discriminate.
+Qed.
+
+(* the unsplittable-consolidated-field error still stores node.line (1-based) *)
+Lemma rst_consolidated_one_too_large : forall ds ln m d L, ds <> 0 -> 1 <= L ->
+  report_line sec_docstring ds ln (perr_offset (rst_consolidated_perr d L)) m = Num (ds + (L - 1) + 1).
+Proof.
+  intros ds ln m d L Hds HL. unfold rst_consolidated_perr. rewrite perr_offset_zero_based by lia.
+  rewrite (report_line_docstring_sections sec_docstring ds ln L m eq_refl Hds). f_equal. lia.
+Qed.
+
+Lemma rst_consolidated_line_refuted :
+  ~ (forall ds ln m d L, ds <> 0 -> 1 <= L ->
+       report_line sec_docstring ds ln (perr_offset (rst_consolidated_perr d L)) m = Num (ds + (L - 1))).
+Proof.
+  intros H. specialize (H 2 0 false [] 3 ltac:(lia) ltac:(lia)). vm_compute in H. discriminate.
 Qed.
 
 Lemma epytext_parse_error_line : forall ds ln m d startline, ds <> 0 -> 0 <= startline ->
